@@ -110,22 +110,40 @@ def _cshow(c):
     return "(%s%s%sj)" % (c[0], "+" if c[1] >= 0 else "", c[1])
 
 
-def show_atom(a):
+def show_atom(a, depth=0):
     if a[0] == "sym":
         return a[1] + ("~" if a[3] else "")
+    if depth > 7:
+        return "..." if a[0] != "app" else a[1] + "(...)"
     if a[0] == "app":
-        return "%s(%s)" % (a[1], ", ".join(show_enc(x) for x in a[2]))
+        return "%s(%s)" % (a[1], ", ".join(show_enc(x, depth + 1) for x in a[2]))
     if a[0] == "cmp":
-        return "(" + show(from_key(a[1])) + ")"
+        return "(" + _show(from_key(a[1]), depth + 1) + ")"
     return str(a)
 
 
-def show_enc(x):
+def show_enc(x, depth=0):
     if x[0] == "P":
-        return show(from_key(x[1]))
+        return _show(from_key(x[1]), depth)
     if x[0] == "T":
-        return "[" + ", ".join(show_enc(y) for y in x[1]) + "]"
+        return "[" + ", ".join(show_enc(y, depth) for y in x[1]) + "]"
     return repr(x[1])
+
+
+def _show(p, depth=0):
+    if not p.t:
+        return "0"
+    out = []
+    items = sorted(p.t.items(), key=repr) if len(p.t) <= 40 else list(p.t.items())[:40]
+    for m, c in items:
+        ms = "*".join(show_atom(a, depth) + ("^%s" % e if e != 1 else "") for a, e in sorted(m, key=repr))
+        if not ms:
+            out.append(_cshow(c))
+        elif c == ONE:
+            out.append(ms)
+        else:
+            out.append(_cshow(c) + "*" + ms)
+    return " + ".join(out)
 
 
 def show(p, limit=400):
@@ -134,18 +152,8 @@ def show(p, limit=400):
         return s if len(s) <= limit else s[:limit] + "..."
     if not isinstance(p, Poly):
         return repr(p)[:limit]
-    if not p.t:
-        return "0"
-    out = []
-    for m, c in sorted(p.t.items(), key=repr):
-        ms = "*".join(show_atom(a) + ("^%s" % e if e != 1 else "") for a, e in sorted(m, key=repr))
-        if not ms:
-            out.append(_cshow(c))
-        elif c == ONE:
-            out.append(ms)
-        else:
-            out.append(_cshow(c) + "*" + ms)
-    s = " + ".join(out)
+    # depth budget grows with the requested length (diagnostics need little, comparisons of rendered text need all)
+    s = _show(p, 0 if limit >= 1000 else 3)
     return s if len(s) <= limit else s[:limit] + "..."
 
 
